@@ -61,6 +61,8 @@ def alphabet_ops(tier, reduced=False):
     for vs in ((), (7,), (7, 2.5)):
         o.append(("set_variable_values", vs))
     o.append(("update_yourself", (("a", 7),)))
+    o.append(("update_yourself", (("a", 1.0), ("b_c", -0.0))))  # equal to values already present (1, 0.0) but of another type / sign of zero
+    o.append(("set", "b_c", 0.0))
     o.append(("update_yourself", (("b_c", "x"), ("zz", 1))))
     o.append(("update_other", ("a",)))
     o.append(("update_other", ("a", "b_c", "zz")))
